@@ -11,6 +11,9 @@ import json, os, re, sys
 
 REPO = os.environ.get("VERIF_REPO", "/repo")
 OUT = os.path.join(os.path.dirname(os.path.abspath(__file__)), "..", "lean", "Resolved", "Generated.lean")
+# the server's decision logic goes to its own file, imported by Props/C09 only: an edit of main.rs then
+# re-checks that module instead of everything that imports Generated.lean
+OUT_SERVER = os.path.join(os.path.dirname(os.path.abspath(__file__)), "..", "lean", "Resolved", "GeneratedServer.lean")
 
 class Missing(Exception):
     pass
@@ -184,6 +187,47 @@ def lean_layout(rows):
         return "." + x if " " not in x else ".name " + x.split()[1]
     return "[" + ",\n   ".join('("%s", [%s])' % (v, ", ".join(f(x) for x in fs)) for v, fs in rows) + "]"
 
+def drop_balanced(src, start_re):
+    """remove every `start_re( … )` call with balanced parentheses, and a directly following `;`"""
+    out, i = [], 0
+    for m in re.finditer(start_re, src):
+        if m.start() < i:
+            continue
+        out.append(src[i:m.start()])
+        depth, j = 0, m.end() - 1
+        while j < len(src):
+            if src[j] == "(":
+                depth += 1
+            elif src[j] == ")":
+                depth -= 1
+                if depth == 0:
+                    break
+            j += 1
+        if j >= len(src):
+            raise Missing(f"unbalanced call after /{start_re}/")
+        j += 1
+        k = j
+        while k < len(src) and src[k] in " \t\n":
+            k += 1
+        i = k + 1 if k < len(src) and src[k] == ";" else j
+    out.append(src[i:])
+    return "".join(out)
+
+def logic_lines(src, fn_re):
+    """The decision logic of a function as its source lines, with what cannot influence the reply
+    removed: tracing macros, Prometheus metric statements, the label/timer bookkeeping.  Lines are
+    whitespace-normalised (the repository is rustfmt-formatted, so a line is a stable unit)."""
+    body = block_after(src, fn_re)
+    body = drop_balanced(body, r"tracing::\w+!\(")
+    body = re.sub(r"(?:let\s+\w+\s*=\s*)?\b(?:DNS|CACHE)_[A-Z_]+\b[^;]*;", "", body)
+    body = re.sub(r"let\s+(?:question_labels|duration_seconds)\b[^;]*;", "", body)
+    lines = [re.sub(r"\s+", " ", l.strip()) for l in body.splitlines()]
+    return [l for l in lines if l]
+
+def lean_strs(lines):
+    esc = lambda l: l.replace("\\", "\\\\").replace('"', '\\"')
+    return "[\n  " + ",\n  ".join('"%s"' % esc(l) for l in lines) + "]"
+
 def generate():
     types = strip_comments(read("crates/dns-types/src/protocol/types.rs"))
     deser = strip_comments(read("crates/dns-types/src/protocol/deserialise.rs"))
@@ -310,17 +354,35 @@ deriving DecidableEq, Repr
     L.append("\nend Resolved.Gen\n")
     return "\n".join(L)
 
+def generate_server():
+    L = []
+    L.append("/-\n  GENERATED by /verif/bin/extract.py from /repo/crates/resolved/src/main.rs — do not edit by hand.\n-/")
+    L.append("namespace Resolved.Gen")
+    # --- decision logic of the server's message handling, translated line by line ---------------
+    mainrs = strip_comments(read("crates/resolved/src/main.rs"))
+    for lean_name, fn_re, doc in [
+            ("triageLogic", r"fn\s+triage\s*\(", "`triage`"),
+            ("buildResponseLogic", r"fn\s+resolve_and_build_response\s*\(", "`resolve_and_build_response`"),
+            ("handleRawMessageLogic", r"fn\s+handle_raw_message\s*\(", "`handle_raw_message`"),
+            ("serialiseResponseLogic", r"fn\s+serialise_response\s*\(", "`serialise_response`")]:
+        ll = logic_lines(mainrs, fn_re)
+        if not ll:
+            raise Missing(f"main.rs {doc} body")
+        L.append(f"\n/-- {doc} (crates/resolved/src/main.rs): its body with logging and metrics removed, line by line. -/")
+        L.append(f"def {lean_name} : List String := " + lean_strs(ll))
+    L.append("\nend Resolved.Gen\n")
+    return "\n".join(L)
+
 def main():
     status = {"extraction": "ok"}
     try:
-        text = generate()
-        old = open(OUT, encoding="utf-8").read() if os.path.exists(OUT) else None
-        if old != text:
-            with open(OUT, "w", encoding="utf-8") as f:
-                f.write(text)
-            status["changed"] = True
-        else:
-            status["changed"] = False
+        status["changed"] = False
+        for out, text in ((OUT, generate()), (OUT_SERVER, generate_server())):
+            old = open(out, encoding="utf-8").read() if os.path.exists(out) else None
+            if old != text:
+                with open(out, "w", encoding="utf-8") as f:
+                    f.write(text)
+                status["changed"] = True
     except Missing as e:
         status = {"extraction": f"unavailable({e})", "changed": False}
     print(json.dumps(status))
